@@ -80,7 +80,7 @@ def make_cases(rng, nbase):
         T = g.rust_type(t)
         E = g.rust_expr(v, t)
         S = tgen.sexp(v)
-        for mode in ("root", "root-index-arg", "root-paren-index", "root-index-impl", "root-deref-field", "chain", "index", "arg", "await", "list-index", "list-neg-index"):
+        for mode in ("root", "root-index-arg", "root-paren-index", "root-index-impl", "root-deref-field", "chain", "chain-twice", "chain-thrice-mixed", "index", "arg", "await", "list-index", "list-neg-index"):
             c = t3.Case()
             c.id = k
             k += 1
@@ -119,9 +119,12 @@ def make_cases(rng, nbase):
                 else:
                     decls = g.decls() + COUNT_DECLS + ("#[derive(Debug)] pub struct W { f: %s }\nimpl W { pub fn get(&self) -> &%s { tick(&self.f) } pub fn at(&self, _i: usize) -> &%s { &self.f } "
                                                        "pub async fn aget(&self) -> &%s { tick(&self.f) } }\n#[derive(Debug)] pub struct W2 { w: W }" % (T, T, T, T))
-                    path = {"chain": "w.get()", "arg": "w.at(tick(0))", "await": "w.aget().await"}[mode]
+                    path = {"chain": "w.get()", "chain-twice": "w.get()", "chain-thrice-mixed": "w.get()", "arg": "w.at(tick(0))", "await": "w.aget().await"}[mode]
                     c.meanings = c.meanings[:-1] + " (m %s %s) (m %s %s))" % (tgen.hexs("at"), tgen.hexs("field:f"), tgen.hexs("aget"), tgen.hexs("field:f"))
-                    t3.finish_case(c, decls, "W2", "W2 { w: W { f: %s } }" % E, adt("W2", ["w"], [adt("W", ["f"], [S])]), "W2 { %s: %s }" % (path, pat))
+                    t3.finish_case(c, decls, "W2", "W2 { w: W { f: %s } }" % E, adt("W2", ["w"], [adt("W", ["f"], [S])]), "W2 { %s: %s }" % (path, pat) if mode not in ("chain-twice", "chain-thrice-mixed") else
+                                   # the SAME written chain on the same root field two / three times (seed C08-13 bound the first and reused it):
+                                   # every written chain is evaluated - the counter must show one evaluation per written chain
+                                   ("W2 { %s: %s, %s: %s }" % (path, pat, path, pat) if mode == "chain-twice" else "W2 { %s: %s, %s: %s, %s: %s }" % (path, pat, path, pat, path, pat)))
                     if mode == "await":
                         c.wrap_open, c.wrap_close = "block_on(async {", "})"
             c.setup = getattr(c, "root_setup", "") + "TICKS.with(|c| c.set(0));"
@@ -196,6 +199,15 @@ def run(ck):
             continue
         ticks = int(getattr(c, "extra", {}).get("ticks", "-1"))
         dist["%s/%s ticks=%d" % (c.mode, gk, ticks)] = dist.get("%s/%s ticks=%d" % (c.mode, gk, ticks), 0) + 1
+        copies = {"chain-twice": 2, "chain-thrice-mixed": 3}.get(c.mode, 1)
+        if copies > 1 and ticks >= 0:
+            # the same (chain, pattern) written `copies` times: every copy behaves like the single one, so the counter is a multiple
+            if ticks % copies != 0 and not (ticks == 0 and assertion_free(c.inner_pattern)):
+                found = True
+                ck.report("repeated-chain:%s:%s:%d" % (c.form, gk, ticks), "the same field-operation chain written %d times on one root field is evaluated %d times in all (not once per written chain)" % (copies, ticks),
+                          dict(t3.describe(c), evaluations=ticks, mode=c.mode, form=c.form, outcome=gk))
+                continue
+            ticks //= copies
         if ticks == 1:
             continue
         desc = dict(t3.describe(c), evaluations=ticks, mode=c.mode, form=c.form, outcome=gk)
@@ -220,7 +232,7 @@ def run(ck):
                    samples=[dict(invocation="assert_struct!(%s)" % c.text[:150], outcome=c.got[0], ticks=getattr(c, "extra", {}).get("ticks")) for c in cases[:3]],
                    rule="every atom form / range shape / compound type of the C11 catalogue x {matching, bound-crossing value} x {counting asserted expression (a call; an index expression with a counting operand, plain and parenthesised; a counting user Index impl; a field through a counting user Deref impl), counting getter chain, counting user Index impl, counting method argument, counting async getter under .await, index `[0]` / `[-1]` after a counting getter}; every case distinct")
     # --- the tally model (Effects.lean: `runT`) against the counters: impl = model, case by case -------------------------------
-    METHOD = {"chain": "get", "arg": "at", "await": "aget", "list-index": "list", "list-neg-index": "list"}
+    METHOD = {"chain": "get", "chain-twice": "get", "chain-thrice-mixed": "get", "arg": "at", "await": "aget", "list-index": "list", "list-neg-index": "list"}
     reqs, idx = [], []
     for c in cases:
         if c.got[0] in ("pass", "fail") and getattr(c, "ast", None):
